@@ -104,6 +104,9 @@ func (t *tr2) identExpr(x *ast.Ident) string {
 		if _, ok := t.isStructList(ty); ok {
 			return "[]"
 		}
+		if _, ok := isSumList(ty); ok {
+			return "[]"
+		}
 		t.fail(x, "nil of unsupported type %s", ty)
 		return "tt"
 	}
@@ -479,6 +482,10 @@ func (t *tr2) composite(x *ast.CompositeLit, bs *[]bind) string {
 	if _, ok := absIntKind(ty); ok && len(x.Elts) == 0 {
 		return "0" // time.Time{}
 	}
+	if _, ok := isSumList(ty); ok && len(x.Elts) == 0 {
+		t.ctype(x, ty)
+		return "[]"
+	}
 	if nn, st, ok := namedStruct(ty); ok && t.typeOK(ty) {
 		r := t.record(nn)
 		vals := map[int]string{}
@@ -618,6 +625,18 @@ func (t *tr2) call(x *ast.CallExpr, bs *[]bind) string {
 		if ok1 && ok2 {
 			return wrap(kd, t.expr(x.Args[0], bs))
 		}
+		if fd, isFd := floatKind(dst); isFd {
+			if fs, isFs := floatKind(src); isFs {
+				switch {
+				case fd == fs:
+					return t.expr(x.Args[0], bs)
+				case fd.bits == 64 && fs.bits == 32:
+					return "(go_f32_widen " + t.expr(x.Args[0], bs) + ")" // exact
+				}
+				t.fail(x, "float64 -> float32 conversion (rounding) is outside the subset")
+				return "0"
+			}
+		}
 		if (isString(dst) && isSlice(src) && isBytes(src) && elemKind(src) == (ikind{false, 8})) ||
 			(isString(src) && isSlice(dst) && isBytes(dst) && elemKind(dst) == (ikind{false, 8})) ||
 			(isString(src) && isString(dst)) {
@@ -680,12 +699,33 @@ func (t *tr2) call(x *ast.CallExpr, bs *[]bind) string {
 		t.fail(x, "sync/atomic method %s outside the subset (Load, Add, Store)", m)
 		return "0"
 	}
+	// math.Float32bits / Float64bits / Float32frombits / Float64frombits: identities on the bit pattern
+	if f, ok := x.Fun.(*ast.SelectorExpr); ok {
+		if id, ok := f.X.(*ast.Ident); ok {
+			if pn, isPkg := t.info.Uses[id].(*types.PkgName); isPkg && pn.Imported().Path() == "math" {
+				switch f.Sel.Name {
+				case "Float32bits", "Float64bits", "Float32frombits", "Float64frombits":
+					if len(x.Args) == 1 {
+						return t.expr(x.Args[0], bs)
+					}
+				}
+				t.fail(x, "math.%s outside the subset", f.Sel.Name)
+				return "0"
+			}
+		}
+	}
 	// unsafe.Slice(p, n) / unsafe.SliceData(s) on *byte
 	if f, ok := x.Fun.(*ast.SelectorExpr); ok {
 		if id, ok := f.X.(*ast.Ident); ok {
 			if pn, isPkg := t.info.Uses[id].(*types.PkgName); isPkg && pn.Imported().Path() == "unsafe" {
 				switch {
 				case f.Sel.Name == "Slice" && len(x.Args) == 2 && isBytePtr(t.info.TypeOf(x.Args[0])):
+					p := t.expr(x.Args[0], bs)
+					n := t.expr(x.Args[1], bs)
+					tmp := t.freshTmp()
+					*bs = append(*bs, bind{pat: tmp, rhs: "(go_unsafe_slice " + p + " " + n + ")"})
+					return tmp
+				case f.Sel.Name == "String" && len(x.Args) == 2 && isBytePtr(t.info.TypeOf(x.Args[0])):
 					p := t.expr(x.Args[0], bs)
 					n := t.expr(x.Args[1], bs)
 					tmp := t.freshTmp()
@@ -888,8 +928,19 @@ func (t *tr2) call(x *ast.CallExpr, bs *[]bind) string {
 		t.fail(x, "call to untranslated function %s", callee.FullName())
 		return "0"
 	}
+	if fi.seq > t.curSeq {
+		t.fail(x, "call of %s, which is translated later (forward reference or mutual recursion): register the callee first; only direct self-recursion is supported", fi.name)
+		return "0"
+	}
 	sig := callee.Type().(*types.Signature)
 	parts := []string{t.q(fi.mod, fi.name)}
+	if fi.fuel {
+		if t.selfRec != callee {
+			t.fail(x, "call of the fuel-recursive function %s from another translated function unsupported", fi.name)
+			return "0"
+		}
+		parts = append(parts, "fuel_")
+	}
 	type step struct {
 		setter, base string
 	}
@@ -1051,7 +1102,23 @@ func (t *tr2) builtin(name string, x *ast.CallExpr, bs *[]bind) string {
 		if _, ok := t.isStructList(t.info.TypeOf(x.Args[0])); ok && len(x.Args) == 1 {
 			return "(Z.of_nat (length " + t.expr(x.Args[0], bs) + "))"
 		}
+		if _, ok := isSumList(t.info.TypeOf(x.Args[0])); ok && len(x.Args) == 1 {
+			return "(Z.of_nat (length " + t.expr(x.Args[0], bs) + "))"
+		}
 	case "append":
+		if _, ok := isSumList(t.info.TypeOf(x.Args[0])); ok && len(x.Args) >= 1 && x.Ellipsis == token.NoPos {
+			lt := t.info.TypeOf(x)
+			et := lt.Underlying().(*types.Slice).Elem()
+			dst := t.exprAs(x.Args[0], lt, bs)
+			elems := []string{}
+			for _, a := range x.Args[1:] {
+				elems = append(elems, t.exprAs(a, et, bs))
+			}
+			if len(elems) == 0 {
+				return dst
+			}
+			return "(" + dst + " ++ [" + strings.Join(elems, "; ") + "])"
+		}
 		if _, ok := t.isStructList(t.info.TypeOf(x.Args[0])); ok && len(x.Args) >= 1 && x.Ellipsis == token.NoPos {
 			dst := t.exprAs(x.Args[0], t.info.TypeOf(x), bs)
 			elems := []string{}
@@ -1082,6 +1149,21 @@ func (t *tr2) builtin(name string, x *ast.CallExpr, bs *[]bind) string {
 			return "(" + dst + " ++ [" + strings.Join(elems, "; ") + "])"
 		}
 	case "make":
+		if _, ok := isSumList(t.info.TypeOf(x)); ok && len(x.Args) == 3 {
+			if lv, c := constIntOf(t.info, x.Args[1]); c && lv == 0 { // make([]I, 0, cap): empty; a negative cap panics
+				cp := t.expr(x.Args[2], bs)
+				tmp := t.freshTmp()
+				*bs = append(*bs, bind{pat: tmp, rhs: "(if " + cp + " <? 0 then GPanic else GOk tt)"})
+				t.ctype(x, t.info.TypeOf(x))
+				return "[]"
+			}
+		}
+		if isBoolList(t.info.TypeOf(x)) && isSlice(t.info.TypeOf(x)) && len(x.Args) == 2 {
+			n := t.expr(x.Args[1], bs)
+			tmp := t.freshTmp()
+			*bs = append(*bs, bind{pat: tmp, rhs: "(go_make_g false " + n + ")"})
+			return tmp
+		}
 		if len(x.Args) >= 2 && isSlice(t.info.TypeOf(x)) && isBytes(t.info.TypeOf(x)) {
 			n := t.expr(x.Args[1], bs)
 			tmp := t.freshTmp()
